@@ -240,7 +240,8 @@ func reifyMap(opts *options, to reflect.Value, from *Config, validators []valida
 			return err
 		}
 		if v.IsValid() {
-			to.SetMapIndex(key, v)
+			// like struct fields: a pointer element gets a pointer
+			to.SetMapIndex(key, pointerize(to.Type().Elem(), v.Type(), v))
 		}
 	}
 
@@ -630,7 +631,8 @@ func reifyDoArray(
 				return reflect.Value{}, err
 			}
 			if v.IsValid() {
-				to.Index(idx).Set(v)
+				// like struct fields: a pointer element gets a pointer
+				to.Index(idx).Set(pointerize(elemT, v.Type(), v))
 			}
 		} else {
 			if err := tryRecursiveValidate(to.Index(idx), opts.opts, nil); err != nil {
